@@ -13,7 +13,9 @@ for s in $seeds; do
   p=$(python3 -c "import json;print(json.load(open('seeded/$s/meta.json'))['breaks_property'])")
   also=$(python3 -c "import json;print(' '.join(json.load(open('seeded/$s/meta.json')).get('also_caught_by',[])))")
   res="MISSED"
-  for try in "$p quick" "$p thorough" $(for a in $also; do echo "$a quick"; done | tr '\n' '|' | sed 's/|$//' | tr '|' '\n' | sed 's/ /_/'); do
+  if python3 -c "import json,sys;sys.exit(0 if 'neutralised_by' in json.load(open('seeded/$s/meta.json')) else 1)"; then echo "$s NEUTRALISED (a later fix of /repo made the seeded change harmless, see meta.json)"; continue; fi
+  # order: the property's own check (quick), the checks named also_caught_by (quick), then the own check's thorough tier
+  for try in "${p}_quick" $(for a in $also; do echo "${a}_quick"; done) "${p}_thorough"; do
     set -- $(echo $try | tr '_' ' ')
     o=$(VERIF_REPO=$WT VERIF_OUT=/dev/shm/verif-regress-out-$$ timeout 3000 ./check $1 $2 2>&1); rc=$?
     if [ $rc -eq 1 ]; then res="CAUGHT by $1 $2: $(echo "$o" | grep -E 'sig:' | head -1 | sed 's/^ *sig: //' | cut -c1-100)"; break; fi
